@@ -31,7 +31,7 @@
 (*           scalars and local arrays, and every call -- the second one    *)
 (*           and the recursive ones included -- must find them empty.      *)
 (*  "collect" sources with up to MaxSites independent errors on a grid of  *)
-(*           CLines lines x 3 places per line (C19a): see CollectProgram.  *)
+(*           CLines lines x 3 places per line (C19a): see CollectSites.    *)
 (***************************************************************************)
 EXTENDS Resolver
 
